@@ -1,7 +1,24 @@
-(* placeholder — regenerated by tools/props/c26.py regen() *)
+(* C26/Gen.v — regenerated from src/cffi/api.py FFI.init_once.  Do not edit: rewritten by tools/props/c26.py regen() on every run. *)
 From Coq Require Import List.
 Import ListNotations.
 From Cffi Require Import C26.Model.
+
 Definition py_prog : prog := [
-  IRead 2 1; ISetDefault 2; IIfDone 3 4; IRetX; IAcquire 5; IRead 6 15; IIfDone 7 9; IRelease 8; IRetX;
-  ICallF 10 13; IStore 11; IRelease 12; IRetResult; IRelease 14; IRaise FExn; IRelease 16; IRaise KeyErr ].
+  (*  0 *) IRead 2 1;   (* x = self._init_once_cache[tag] *)
+  (*  1 *) ISetDefault 2;   (* x = self._init_once_cache.setdefault(tag, (False, allocate_lock())) *)
+  (*  2 *) IIfDone 3 4;   (* if x[0]: *)
+  (*  3 *) IRetX;   (* return x[1] *)
+  (*  4 *) IAcquire 5;   (* with x[1]: *)
+  (*  5 *) IRead 6 15;   (* x = self._init_once_cache[tag] *)
+  (*  6 *) IIfDone 7 9;   (* if x[0]: *)
+  (*  7 *) IRelease 8;   (* (leave with) *)
+  (*  8 *) IRetX;   (* return x[1] *)
+  (*  9 *) ICallF 10 13;   (* result = func() *)
+  (* 10 *) IStore 11;   (* self._init_once_cache[tag] = (True, result) *)
+  (* 11 *) IRelease 12;   (* (leave with) *)
+  (* 12 *) IRetResult;   (* return result *)
+  (* 13 *) IRelease 14;   (* (leave with, exception from func()) *)
+  (* 14 *) IRaise FExn;   (* (propagate) *)
+  (* 15 *) IRelease 16;   (* (leave with, KeyError) *)
+  (* 16 *) IRaise KeyErr   (* (propagate) *)
+].
